@@ -770,8 +770,39 @@ def adjacentWarn : List (Key × Key) → M Unit
         | (.ok _, m2) => (.ok (), m2)
     | _, _ => (.error .type, m)
 
-/-- module-level `image(trans, source, rename, qvars, bdd, forall)` -/
-def image (trans source : Int) (rn : List (Key × Key)) (qvars : List Key) (forall_ : Bool) : M Int :=
+/-- `name(k)` of `_image_args_by_name`: `j = bdd.vars.get(k, k)`, then
+`level_to_var.get(j, j)`: the variable name where the key resolves to a level, the key itself
+otherwise (an undeclared name, an `int` that is not a level) -/
+def keyByName (t : Tbl) : Key → Key
+  | .name s => match t.vars[s]? with
+    | some l => (match t.l2v[l]? with
+      | some nm => .name nm
+      | none => .lvl l)
+    | none => .name s
+  | .lvl i =>
+    if 0 ≤ i then
+      (match t.l2v[i.toNat]? with
+      | some nm => .name nm
+      | none => .lvl i)
+    else .lvl i
+
+/-- `{name(k): name(v) for k, v in rename.items()}` of `_image_args_by_name` (dict semantics: a
+later duplicate of a key overwrites, order of first insertion) -/
+def renameByName (t : Tbl) (rn : List (Key × Key)) : List (Key × Key) :=
+  let l := rn.map fun (k, v) => (keyByName t k, keyByName t v)
+  (dedup (l.reverse.map (·.1))).reverse.map fun k => (k, (l.reverse.lookup k).getD k)
+
+/-- `{level_to_var[j] for j in bdd._map_to_level(set(qvars))}` of `_image_args_by_name` -/
+def qvarsByName (t : Tbl) (qvars : List Key) : Except Err (List Key) :=
+  match mapToLevelE t qvars with
+  | .error e => .error e
+  | .ok q => mapME (fun j => match t.l2v[j]? with
+      | some nm => .ok (Key.name nm)
+      | none => .error .key) q
+
+/-- `_image_of(bdd, trans, source, rename, qvars, forall)`: the body that `_try_to_reorder`
+decorates (and runs again after a reordering, mapping the names to the new levels) -/
+def imageBody (trans source : Int) (rn : List (Key × Key)) (qvars : List Key) (forall_ : Bool) : M Int :=
   fun m =>
   match mapToLevelE m.tbl qvars with
   | .error e => (.error e, m)
@@ -801,8 +832,17 @@ def assertValidRename (rn : List (Key × Key)) : M Unit := fun m =>
   | (.error e, m1) => (.error e, m1)
   | (.ok _, m1) => if renameOverlap rn then (.error .assertion, m1) else (.ok (), m1)
 
-/-- module-level `preimage(trans, target, rename, qvars, bdd, forall)` -/
-def preimage (trans target : Int) (rn : List (Key × Key)) (qvars : List Key) (forall_ : Bool) : M Int :=
+/-- module-level `image(trans, source, rename, qvars, bdd, forall)`: the arguments are turned
+into variable NAMES (`_image_args_by_name`: `qvars` first, with the errors of `_map_to_level`),
+then the decorated `_image_of` runs -/
+def image (trans source : Int) (rn : List (Key × Key)) (qvars : List Key) (forall_ : Bool) : M Int :=
+  fun m =>
+  match qvarsByName m.tbl qvars with
+  | .error e => (.error e, m)
+  | .ok qn => tryToReorder (imageBody trans source (renameByName m.tbl rn) qn forall_) m
+
+/-- `_preimage_of(bdd, trans, target, rename, qvars, forall)`: the decorated body -/
+def preimageBody (trans target : Int) (rn : List (Key × Key)) (qvars : List Key) (forall_ : Bool) : M Int :=
   fun m =>
   match mapToLevelE m.tbl qvars with
   | .error e => (.error e, m)
@@ -818,6 +858,13 @@ def preimage (trans target : Int) (rn : List (Key × Key)) (qvars : List Key) (f
       -- the fuel `2n + 4` runs out exactly when Python ends in RecursionError (a RuntimeError)
       | (.error e, m2) => (.error (if e = .fuel then .runtime else e), m2)
       | (.ok (r, _), m2) => (.ok r, m2)
+
+/-- module-level `preimage(trans, target, rename, qvars, bdd, forall)` -/
+def preimage (trans target : Int) (rn : List (Key × Key)) (qvars : List Key) (forall_ : Bool) : M Int :=
+  fun m =>
+  match qvarsByName m.tbl qvars with
+  | .error e => (.error e, m)
+  | .ok qn => tryToReorder (preimageBody trans target (renameByName m.tbl rn) qn forall_) m
 
 /-! ### to_expr -/
 
